@@ -336,17 +336,32 @@ func (e *Engine) pureRegion(f *frame, b *ssa.BasicBlock, arr []arrival, stop *ss
 				if f.active == nil {
 					f.active = map[*ssa.BasicBlock]int{}
 				}
-				if f.active[b] > 0 {
-					// the same symbolic branch is re-entered from inside its own region:
-					// a loop with a symbolic condition. Prune routes whose guard is dead.
-					if e.s.checkWith(guard) == "unsat" {
-						return nil
-					}
+				if f.active[b] > 0 && join != nil {
+					// The same symbolic branch is re-entered from inside its own region and the routes
+					// re-join before the function ends: a loop whose exit condition is symbolic. Routes
+					// leaving at different iterations would need their loop-carried registers merged;
+					// this executor does not do that: fail closed. (Early returns out of a loop are
+					// fine: every route ends in its own return with the registers of its own iteration.)
+					panic(engineError{fmt.Sprintf("loop with a symbolic exit condition in merged code: %s @ %s",
+						f.fn.Name(), e.prog.Fset.Position(x.Cond.Pos()))})
 				}
 				f.active[b]++
 				nret, nesc := len(f.rets), f.escapes
+				// both routes start from the same register state
+				saved := make(map[ssa.Value]Value, len(f.env)+8)
+				for k, v := range f.env {
+					saved[k] = v
+				}
 				a0 := e.pureRegion(f, b.Succs[0], []arrival{{b, tand(guard, c), nil}}, join)
+				env0 := f.env
+				f.env = saved
 				a1 := e.pureRegion(f, b.Succs[1], []arrival{{b, tand(guard, tnot(c)), nil}}, join)
+				// registers defined on the first route only stay visible (phis use arrival snapshots)
+				for k, v := range env0 {
+					if _, ok := f.env[k]; !ok {
+						f.env[k] = v
+					}
+				}
 				f.active[b]--
 				arr = append(a0, a1...)
 				if len(f.rets) == nret && f.escapes == nesc {
